@@ -8,7 +8,7 @@ import ast
 
 from ..core import AnchorError, call_name, decorators, norm, short, own_nodes, kwarg, FUNC_TYPES
 from ..cfg import cfg_of, can_raise
-from ..lib import calls_in, stmts_in, gate, must_pass, node_has, paired, paired_correlated, params
+from ..lib import calls_in, stmts_in, gate, must_pass, node_has, paired, paired_correlated, params, key_function
 from ..order import OrderAnalysis
 
 API = 'jedi.api'
@@ -346,14 +346,8 @@ def rule_d(repo, chk):
     srt = calls_in(f, 'sorted', nested=True)
     chk.floor('C16.d', len(srt), 1)
     for c in srt:
-        key = kwarg(c, 'key')
-        body = key.body if isinstance(key, ast.Lambda) else None
-        if body is None and isinstance(key, ast.Name):
-            for d in ast.walk(f):
-                if isinstance(d, ast.FunctionDef) and d.name == key.id and d.body and isinstance(d.body[-1], ast.Return):
-                    body = d.body[-1].value
-        elts = [norm(e) for e in body.elts] if isinstance(body, ast.Tuple) else None
-        arg = key.args.args[0].arg if isinstance(key, ast.Lambda) else 'x'
+        kf = key_function(repo, f, kwarg(c, 'key'))
+        elts, arg = kf if kf is not None else (None, 'x')
         want = ["str(%s.module_path or '')" % arg, '%s.line or 0' % arg, '%s.column or 0' % arg, '%s.name' % arg]
         chk.ob('C16.d', elts == want, c, 'sort key is (str(module_path or ""), line or 0, column or 0, name)', 'key: %s' % elts)
         chk.ob('C16.d', kwarg(c, 'reverse') is None, c, 'ascending order')
